@@ -598,6 +598,8 @@ def gen_parse_families(rnd, tier):
         for k in LENIENT_K:
             zn = rnd.choice(ZONES)
             v = rnd.choice(LENIENT_V + ['09:00-17:00'] * 4)
+            if v in ('25:00-26:00', '1:2:3-4:5:6'):
+                zn = 'UTC'                                   # boundaries between 01:00 and 03:00: not on a transition day
             # eight-day windows over the end of February, the second week and the end of March 2034: every definition
             # of the list matches in at least one of them
             y, m, d = rnd.choice(((2034, 2, rnd.randint(24, 27)), (2034, 3, rnd.randint(8, 10)), (2034, 3, rnd.randint(22, 24))))
